@@ -148,7 +148,7 @@ def identity_history(ctx, rng, idx):
         root = pair.a.root
         for step in range(rng.randrange(4, 21)):
             op = rng.choice(["send", "send_tuple", "echo", "give", "drop_remote", "make", "make_pair", "drop_local", "mutate",
-                             "bounce", "send_twice_in_flight", "receive_twice_in_flight"])
+                             "bounce", "send_twice_in_flight", "receive_twice_in_flight", "rereceive_while_release_in_flight"])
             k = rng.randrange(3)
             slot = rng.randrange(4)
             ops.append((op, k, slot))
@@ -211,6 +211,30 @@ def identity_history(ctx, rng, idx):
                     bad.append(("second-proxy", "the same remote object arriving in two replies that were both in flight gives two proxies"))
                 del r1, r2, p1, p2, amake
                 ctx.count("same_object_in_two_replies_in_flight")
+            elif op == "rereceive_while_release_in_flight":
+                # hold the only proxy of a peer-owned object, ask for the object again without waiting, drop the proxy (its release
+                # notice travels behind the request), then collect: the fresh proxy must work and be the peer's original object
+                p1 = root.make(k)
+                if isinstance(state["owned"][k], list) and not any(held_k.get(s2) == k for s2 in held):
+                    amake = rpyc.async_(root.make)
+                    res = amake(k)
+                    del p1
+                    p2 = res.value
+                    try:
+                        p2.append(("late", step))
+                        if state["owned"][k][-1] != ("late", step):
+                            bad.append(("mutation-lost", "a change made through a re-received reference is not a change to the owner's object"))
+                        state["owned"][k].pop()
+                        root.hold(slot, p2)
+                        if state["slots"][slot] is not state["owned"][k]:
+                            bad.append(("bounce-not-original", "a re-received reference handed back to its owner is not the original object"))
+                        root.drop(slot)
+                    except Exception as e:
+                        bad.append(("rereceived-reference-dead/%s" % type(e).__name__, "a reference received again while the release of the earlier proxy was in flight does not work: %r" % (e,)))
+                    del p2, res, amake
+                    ctx.count("rereceived_while_release_in_flight")
+                else:
+                    del p1
             elif op == "drop_local":
                 held.pop(slot, None)
                 held_k.pop(slot, None)
